@@ -308,6 +308,8 @@ func c09_3(c *core.Ctx, p *core.Prog) {
 		if !ok || len(ret.Results) != 1 {
 			return true
 		}
+		// complexity (the duplicate-key loop with its own return) only removes paths: a missing conjunct makes the
+		// accepting condition weaker, which is the conservative direction for "accepted ⇒ valid"
 		conds, _ := core.PathCond(file, fd.Body, ret.Pos())
 		var usable []core.Cond
 		for _, cd := range conds {
